@@ -451,10 +451,13 @@ fn c13(a: &Args) -> Report {
         Op::w(0, 1),
         Op::d(0, 2),
         Op::RstLazy,
+        Op::TickShort,
     ];
-    let mut s = SeqSpec::new("C13/seq", alphabet, if thorough { 4 } else { 3 });
+    let mut s = SeqSpec::new("C13/seq", alphabet, if thorough { 5 } else { 4 });
     s.wcfg.max_data_in_blob = 2;
-    s.epilogue = vec![Op::w(7, 1), Op::w(7, 2), Op::w(7, 3), Op::Tick];
+    // overflow, then the clock passes the first deferred deadline early (a re-armed deadline must
+    // survive), then far beyond every deadline
+    s.epilogue = vec![Op::w(7, 1), Op::w(7, 2), Op::w(7, 3), Op::TickShort, Op::Tick];
     s.keys = vec![0, 7];
     s.checks = Checks { alive: true, rotation: true, ..Default::default() };
     let results = run_specs(&[s], a, &no_known);
